@@ -343,24 +343,14 @@ impl Interpreter {
                 state.stack.push_bigint(pos)?;
             }
             OpCodes::OP_NOT => {
-                let a = state.stack.pop_number()?;
+                let a = state.stack.pop_bigint()?;
 
-                let notted = match a {
-                    0 => 1,
-                    _ => 0,
-                };
-
-                state.stack.push_number(notted)?;
+                state.stack.push_bool(a == BigInt::from(0))?;
             }
             OpCodes::OP_0NOTEQUAL => {
-                let a = state.stack.pop_number()?;
+                let a = state.stack.pop_bigint()?;
 
-                let notted = match a {
-                    0 => 0,
-                    _ => 1,
-                };
-
-                state.stack.push_number(notted)?;
+                state.stack.push_bool(a != BigInt::from(0))?;
             }
             OpCodes::OP_ADD => {
                 let b = state.stack.pop_bigint()?;
